@@ -27,12 +27,14 @@ for f in sorted(glob.glob(os.path.join(os.path.dirname(os.path.dirname(os.path.a
             else:
                 how += ' + replayed input'
         elif und:
-            how = 'UNDECIDED (exit 2)'
+            how = 'UNDECIDED (exit 2)' + (', no alarm' if m['id'].startswith('N') else '')
+        elif m['id'].startswith('N'):
+            how = 'verified, exit 0 (no alarm)'
         else:
-            how = 'missed (exit %s)' % r.get('exit')
+            how = 'not reported (exit %s)' % r.get('exit')
         res.append('%s: %s' % (prop, how))
     esc = lambda t: t.replace('||', 'or').replace('|', '/')
-    rows.append((m['id'], esc(m.get('what', '')), esc(m.get('needs', '')), 'yes' if m.get('confirmed') else 'NO', '; '.join(res)))
+    rows.append((m['id'], esc(m.get('what', '')), esc(m.get('needs', '')), ('n/a' if m['id'].startswith('N') else ('yes' if m.get('confirmed') else 'NO')), '; '.join(res)))
 print('| seed | change | needs, to manifest | confirmed | quick check result |')
 print('|------|--------|--------------------|-----------|--------------------|')
 for r in rows:
